@@ -7,6 +7,7 @@ import (
 	"os"
 	"path/filepath"
 	"regexp"
+	"strings"
 
 	"github.com/maruel/panicparse/v2/stack"
 
@@ -166,6 +167,20 @@ func c06FS(r *core.Run, c *c06Case) {
 			gen.FSFrame{Remote: "/rgp/" + outerKind + "/a.com/foo@v1.0.0/" + innerKind + "/inner/pkg/i.go", Pkg: "inner/pkg"},
 			gen.FSFrame{Remote: "/rgp/" + outerKind + "/outer/o.go", Pkg: "outer"})
 		r.Mark("overlap_kinds", outerKind+" contains "+innerKind)
+		if rr.Bool() {
+			// the same packages present in both GOPATHs (one is a superset of the other): which copy a frame resolves
+			// to must not depend on what an earlier call did with the same options
+			n := 0
+			for _, f := range l.Frames {
+				if f.Exists && strings.HasPrefix(f.Local, lp0+"/") {
+					mk(lp1 + strings.TrimPrefix(f.Local, lp0))
+					n++
+				}
+			}
+			if n > 0 {
+				r.Count("fs_layouts_with_a_package_in_two_gopaths", 1)
+			}
+		}
 	}
 	d := l.DumpFor(rr)
 	in := d.Render()
